@@ -320,6 +320,35 @@ func (m *BigMap) Set(key, value Object) Map {
 	return m
 }
 
+// DeepCopy returns a value sharing no array or map storage with o (the very object when it holds none).
+func DeepCopy(o Object) Object {
+	switch v := o.(type) {
+	case SmallArray:
+		for i := range v.len {
+			v.smallArr[i] = DeepCopy(v.smallArr[i])
+		}
+		return v
+	case BigArray:
+		els := make([]Object, len(v.elements))
+		for i, e := range v.elements {
+			els[i] = DeepCopy(e)
+		}
+		return BigArray{elements: els}
+	case SmallMap:
+		for i := range v.len {
+			v.smallKV[i] = keyValuePair{Key: DeepCopy(v.smallKV[i].Key), Value: DeepCopy(v.smallKV[i].Value)}
+		}
+		return v
+	case *BigMap:
+		kv := make([]keyValuePair, len(v.kv))
+		for i, p := range v.kv {
+			kv[i] = keyValuePair{Key: DeepCopy(p.Key), Value: DeepCopy(p.Value)}
+		}
+		return &BigMap{kv: kv}
+	}
+	return o
+}
+
 // CloneMap returns a map that shares no storage with m (a small map is a value already).
 func CloneMap(m Map) Map {
 	if bm, ok := m.(*BigMap); ok {
